@@ -121,14 +121,42 @@ Proof.
   unfold print_N. destruct (N.to_uint n) as [|d|d|d|d|d|d|d|d|d|d]; reflexivity.
 Qed.
 
+(* strings without whitespace are fixed by trimming *)
+Fixpoint nows (s : string) : bool :=
+  match s with
+  | EmptyString => true
+  | String c r => (negb (is_ws c) && nows r)%bool
+  end.
+Lemma nows_app a b : nows (a ++ b) = (nows a && nows b)%bool.
+Proof. induction a as [|c r IH]; cbn; [reflexivity|]. rewrite IH. destruct (is_ws c); reflexivity. Qed.
+Lemma ltrim_nows s : nows s = true -> ltrim s = s.
+Proof. destruct s as [|c r]; cbn; [reflexivity|]. destruct (is_ws c); [discriminate | reflexivity]. Qed.
+Lemma rtrim_nows s : nows s = true -> rtrim s = s.
+Proof.
+  induction s as [|c r IH]; cbn; [reflexivity|]. destruct (is_ws c) eqn:E; [discriminate|]. cbn. intros H.
+  rewrite (IH H). destruct r; reflexivity.
+Qed.
+Lemma trim_nows s : nows s = true -> trim_ws s = s.
+Proof. intros H. unfold trim_ws. rewrite (ltrim_nows s H). apply rtrim_nows, H. Qed.
+Lemma string_of_uint_nows d : nows (NilEmpty.string_of_uint d) = true.
+Proof. induction d; cbn; auto. Qed.
+Lemma print_N_nows n : nows (print_N n) = true.
+Proof. apply string_of_uint_nows. Qed.
+Lemma print_token_nows s : nows (print_token s) = true.
+Proof.
+  destruct s as [t l q]. unfold print_token, intSeqToString; cbn [TriggeredBy LowSeq Seq].
+  break_ifs; cbn [fst snd render Ascii.eqb Bool.eqb andb]; repeat (rewrite ?nows_app, ?print_N_nows; cbn [nows andb]); reflexivity.
+Qed.
+
 Theorem json_roundtrip s : wf64 s -> unmarshal (marshal s) = POk (canon s) /\
    ((TriggeredBy s = 0 /\ LowSeq s = 0) -> canon s = s).
 Proof.
   intros H. split.
   - unfold unmarshal, marshal.
     destruct ((0 <? TriggeredBy s) || (0 <? LowSeq s))%bool eqn:Ec.
-    + rewrite unquote_quote by apply print_token_plain. apply parse_print, H.
-    + rewrite unquote_digits.
+    + rewrite trim_nows by (unfold quote; rewrite !nows_app, print_token_nows; reflexivity).
+      rewrite unquote_quote by apply print_token_plain. apply parse_print, H.
+    + rewrite trim_nows by apply print_N_nows. rewrite unquote_digits.
       destruct s as [t l q]; destruct H as (Ht & Hl & Hq); cbn [TriggeredBy LowSeq Seq] in *.
       assert (t = 0 /\ l = 0) as [-> ->] by lia.
       rewrite parse_simple by assumption. reflexivity.
